@@ -26,6 +26,7 @@ func checkC16(c *Ctx) {
 	c.Rule("C16/R8", "digit order: wherever a renderer writes a number digit by digit (footnote marks, spreadsheet column names), digits peeled off least-significant first are stored from the end of the buffer backwards, or the buffer is reversed afterwards")
 	c.Rule("C16/R9", "CSV cell references: a closure of ToCSV that derives a cell reference from the length of the row under assembly is called, inside the column loops, only after the padding closure on every path of the iteration; and no value is appended to the row after a conditionally appended one of the same iteration without a padding call in between")
 	c.Rule("C16/R10", "rows and records stay in step: in the CSV renderers every csv.Writer.Write is followed on every path by an increment of the shared row counter")
+	c.Rule("C16/R12", "absolute placement in the text renderer: inside a loop over the table's columns every path from the start of the iteration to a call that emits a cell passes a Col(...) call computed from that iteration's column index")
 	c.Rule("C16/R11", "a spanning cell gets room: from the test that finds the spanned columns too narrow for the cell, every path to the next cell stores into the widths table — with the work list of columns that may grow tracked as empty / non-empty along the path, so that 'every column under the cell is a shrink column' is a path of its own")
 	c.Rule("C16/R7", "shrink marks stay inside the table built so far: every column index passed to SetShrink is below the layout's current column on the path that reaches the call")
 	p := mustLoad(c, loadOpts{}, "./"+ttabRel, "./"+btabRel, "./benchproc", "./benchmath", "./benchfmt", "./benchunit")
@@ -40,6 +41,7 @@ func checkC16(c *Ctx) {
 	c16CSVRefs(c, p)
 	c16CSVRows(c, p)
 	c16SpanFits(c, p)
+	c16Placed(c, p)
 }
 
 // c16CSVRows (C16/R10): warnings name spreadsheet rows, so the row counter and the records written must stay in step: in
@@ -1544,4 +1546,156 @@ func c16GrowsOnEveryPath(fn *ssa.Function, loops []*loopInfo, cells *loopInfo, s
 		return false, "too many paths through the width computation"
 	}
 	return !bad, ""
+}
+
+// c16Placed (C16/R12): in the text renderer every cell written while walking the logical columns is placed absolutely:
+// inside a loop over the table's columns, each path from the start of the iteration to a call that emits a cell passes a
+// Col(...) call whose argument is computed from this iteration's own column index. A cell emitted at "wherever the
+// previous column left the cursor" lands in the wrong logical column as soon as the previous column printed fewer cells
+// than it has room for (no baseline, no delta), which is where text and CSV stop agreeing.
+func c16Placed(c *Ctx, p *Prog) {
+	const R = "C16/R12"
+	fn := p.Method(btabRel, "Table", "ToText")
+	colsF := p.Field(btabRel, "Table", "Cols")
+	if fn == nil || colsF == nil {
+		c.Undecided(R, "anchor:Table.ToText/Cols", "", "not found")
+		return
+	}
+	ttab := modPath + "/" + ttabRel
+	// closures of ToText that emit cells
+	emits := map[*ssa.Function]bool{}
+	for _, a := range fn.AnonFuncs {
+		eachInstr(a, func(_ *ssa.BasicBlock, in ssa.Instruction) {
+			if call, ok := in.(*ssa.Call); ok && (objIs(calleeObj(&call.Call), ttab, "Table", "Cell") || objIs(calleeObj(&call.Call), ttab, "Table", "Span")) {
+				emits[a] = true
+			}
+		})
+	}
+	isEmit := func(in ssa.Instruction) bool {
+		call, ok := in.(*ssa.Call)
+		if !ok {
+			return false
+		}
+		if objIs(calleeObj(&call.Call), ttab, "Table", "Cell") || objIs(calleeObj(&call.Call), ttab, "Table", "Span") {
+			return true
+		}
+		// a call of a local closure that emits
+		if call.Call.StaticCallee() == nil && !call.Call.IsInvoke() {
+			v := call.Call.Value
+			if la := loadAddr(v); la != nil {
+				if al, ok := la.(*ssa.Alloc); ok {
+					for _, st := range storesInto(al) {
+						v = st.Val
+					}
+				}
+			}
+			if mc, ok := v.(*ssa.MakeClosure); ok && emits[mc.Fn.(*ssa.Function)] {
+				return true
+			}
+		}
+		return false
+	}
+	var mentions func(v ssa.Value, idx ssa.Value, d int) bool
+	mentions = func(v ssa.Value, idx ssa.Value, d int) bool {
+		if v == idx {
+			return true
+		}
+		if d > 6 {
+			return false
+		}
+		switch x := v.(type) {
+		case *ssa.BinOp:
+			return mentions(x.X, idx, d+1) || mentions(x.Y, idx, d+1)
+		case *ssa.Call:
+			for _, a := range x.Call.Args {
+				if mentions(a, idx, d+1) {
+					return true
+				}
+			}
+		case *ssa.Convert:
+			return mentions(x.X, idx, d+1)
+		}
+		return false
+	}
+	n := 0
+	for _, lp := range naturalLoops(fn) {
+		// a loop over t.Cols: the header's counter indexes the slice loaded from the Cols field
+		var idx ssa.Value
+		for b := range lp.Blocks {
+			for _, in := range b.Instrs {
+				if ia, ok := in.(*ssa.IndexAddr); ok {
+					if f, _ := loadOfField(ia.X); f == colsF {
+						if bo, ok := ia.Index.(*ssa.BinOp); ok {
+							if ph, ok := bo.X.(*ssa.Phi); ok && ph.Block() == lp.Header {
+								idx = ia.Index
+							}
+						}
+						if ph, ok := ia.Index.(*ssa.Phi); ok && ph.Block() == lp.Header {
+							idx = ia.Index
+						}
+					}
+				}
+			}
+		}
+		if idx == nil {
+			continue
+		}
+		// innermost such loop only (an outer loop over rows contains it)
+		placed := func(in ssa.Instruction) bool {
+			call, ok := in.(*ssa.Call)
+			return ok && objIs(calleeObj(&call.Call), ttab, "Table", "Col") && len(call.Call.Args) >= 2 && mentions(call.Call.Args[1], idx, 0)
+		}
+		for _, b := range fn.Blocks {
+			if !lp.Blocks[b] {
+				continue
+			}
+			for i, in := range b.Instrs {
+				if !isEmit(in) {
+					continue
+				}
+				n++
+				// backwards from the emission to the iteration's start
+				ok := false
+				for j := i - 1; j >= 0 && !ok; j-- {
+					if placed(b.Instrs[j]) {
+						ok = true
+					}
+				}
+				unplaced := ""
+				if !ok {
+					seen := map[*ssa.BasicBlock]bool{}
+					work := append([]*ssa.BasicBlock{}, b.Preds...)
+					if b == lp.Header {
+						work = nil
+						unplaced = "the loop header"
+					}
+					for len(work) > 0 && unplaced == "" {
+						x := work[len(work)-1]
+						work = work[:len(work)-1]
+						if seen[x] || !lp.Blocks[x] {
+							continue
+						}
+						seen[x] = true
+						has := false
+						for _, in2 := range x.Instrs {
+							if placed(in2) {
+								has = true
+							}
+						}
+						if has {
+							continue
+						}
+						if x == lp.Header {
+							unplaced = "the start of the iteration"
+							break
+						}
+						work = append(work, x.Preds...)
+					}
+				}
+				c.Check(unplaced == "", R, fmt.Sprintf("ToText:cell-placed#%d", n), p.pos(in.Pos()), "the cell is emitted after the cursor was set from this column's own index",
+					"a cell can be emitted in the loop over the columns without the cursor having been set from this iteration's column index (a path from "+unplaced+" reaches it with no Col(startCol(exp)…) call): it lands wherever the previous column stopped — under that column's delta or p-value header when the previous column printed fewer cells than it has room for — so the text no longer shows the value under the column the CSV attributes it to")
+			}
+		}
+	}
+	c.Floor(R, "cells emitted inside the column loops of the text renderer", n, 4)
 }
